@@ -19,3 +19,11 @@ package variablecontext
 //@        (forall k string :: (k in task.ParallelIndex.MatrixValues) ==> (("task.index_matrix." + k) in result) && result["task.index_matrix." + k] == task.ParallelIndex.MatrixValues[k])
 //@        && !("task.index_num" in result) && !("task.index_key" in result)
 //@   ensures [C14] retry-index: ("task.retry_index" in result) && result["task.retry_index"] == itoa(task.RetryIndex)
+
+// the package-level ContextProvider is the default provider in production (stated where it is used)
+//@ extern func iface github.com/furiko-io/furiko/pkg/execution/variablecontext.Provider.MakeVariablesFromJob
+//@   devirtualize variablecontext.defaultProvider
+//@ extern func iface github.com/furiko-io/furiko/pkg/execution/variablecontext.Provider.MakeVariablesFromTask
+//@   devirtualize variablecontext.defaultProvider
+//@ extern func iface github.com/furiko-io/furiko/pkg/execution/variablecontext.Provider.GetAllPrefixes
+//@   devirtualize variablecontext.defaultProvider
